@@ -69,6 +69,12 @@ def run(ctx, driver):
     objs = []
     objs.append(("mel", [], S.MelScaling()))
     objs.append(("bark", [], S.BarkScaling()))
+    # fixed parameter corners first (never left to the RNG): tiny positive octave references (both directions must
+    # clamp low_hz the same way), the clamp value itself, ordinary ones; linear offsets / slopes
+    for lo in (1e-12, 2.5e-11, 1e-10, 1.0, 440.0):
+        objs.append(("octave", [lo], S.OctaveScaling(lo)))
+    for low, slope in ((0.0, 1.0), (20.0, 0.5), (-5.0, 3.0)):
+        objs.append(("linear", [low, slope], S.LinearScaling(low, slope)))
     for _ in range(6 if ctx.tier == "quick" else 40):
         low = r.choice([0.0, 20.0, -5.0, r.uniform(0, 500)])
         slope = r.choice([1.0, 0.5, 3.0, 10 ** r.uniform(-3, 3)])
@@ -83,12 +89,18 @@ def run(ctx, driver):
         for f in sorted(sub):
             if name == "octave" and f < params[0]:
                 continue
-            s = float(o.hertz_to_scale(f))
-            cases.append((name + "_h2s", params, f, s))
-            back = float(o.scale_to_hertz(s))
-            cases.append((name + "_s2h", params, s, back))
             case = dict(scale=name, params=params, hertz=f)
             ctx.case(case, kind=name)
+            try:
+                # f is a built-in Python float here (the grid holds 0.0 and 1e5, the ends of the domain)
+                s = float(o.hertz_to_scale(f))
+                back = float(o.scale_to_hertz(s))
+            except Exception as e:
+                ctx.violation(case, "a number", "%s: %s" % (type(e).__name__, e), "the maps are defined on the whole domain [0, 1e5] Hz",
+                              tags=dict(scale=name, clause="raises"))
+                continue
+            cases.append((name + "_h2s", params, f, s))
+            cases.append((name + "_s2h", params, s, back))
             tol = 1e-9 * max(1.0, abs(f))
             if not (abs(back - f) <= tol):
                 ctx.violation(case, f, back, "scale_to_hertz(hertz_to_scale(f)) == f",
